@@ -26,6 +26,8 @@ from pathlib import Path
 from .. import common as C
 from ..common import Corr, Violation, clist, cnat, cz
 
+TRANSLATORS = ['prompt_filter']     # Gen/PromptFilter.v: the code facts the main-process filter model rests on
+
 TRUSTED_BASE = [
     'correspondence harness harness/props/c07.py (script generator, decoy policy, log -> label sequence: '
     'Relay right after each Send, Take of the addressed trace after each Relay and after each OpenPrompt)',
@@ -92,6 +94,7 @@ def release(k):
 
 DECOY_KINDS_PRE = ['stale', 'wrong-trace', 'unknown-trace', 'early', 'nonexistent', 'ended-trace']
 DECOY_KINDS_POST = ['duplicate', 'stale', 'wrong-trace', 'unknown-trace', 'nonexistent', 'ended-trace']
+ISSUED_KINDS = ['stale', 'duplicate', 'wrong-trace', 'unknown-trace', 'ended-trace']
 
 
 class _Capture(logging.Handler):
@@ -122,6 +125,10 @@ class Policy:
         self.first_start_line = args.get('first_start_line')
         self.p_unborn = args.get('p_unborn', 0.0)
         self.cmds = args.get('cmds', ['next', 'next', 'step'])
+        # family A: only decoys the main-process filter could let through (prompt numbers that have been issued)
+        self.issued_only = args.get('issued_only', False)
+        self.kinds_pre = [k for k in DECOY_KINDS_PRE if not self.issued_only or k in ISSUED_KINDS]
+        self.kinds_post = [k for k in DECOY_KINDS_POST if not self.issued_only or k in ISSUED_KINDS]
         self.no_decoys = args.get('no_decoys', False)
         self.lock = threading.RLock()
         self.put = None
@@ -243,17 +250,18 @@ class Policy:
         resumes = not text.startswith('!')
         if not self.no_decoys:
             for _ in range(rng.randint(0, self.max_decoys)):
-                self._decoy(rng.choice(DECOY_KINDS_PRE), t, p)
-            self._unborn(t, p, line_no)
+                self._decoy(rng.choice(self.kinds_pre), t, p)
+            if not self.issued_only:
+                self._unborn(t, p, line_no)
         self.genuine[str(p)] = [t, text]
         self._put(t, p, text)
         if not self.no_decoys:
             for _ in range(rng.randint(0, self.max_decoys)):
-                self._decoy(rng.choice(DECOY_KINDS_POST), t, p)
+                self._decoy(rng.choice(self.kinds_post), t, p)
         if gate_k is not None and resumes:
             # the thread of trace t is now inside gate(k) (or still before it): it cannot have
             # opened another prompt, so every (t, q > p) is a FUTURE prompt for certain
-            if self.use_future and not self.no_decoys and text != 'continue' and rng.random() < self.p_future:
+            if self.use_future and not self.issued_only and not self.no_decoys and text != 'continue' and rng.random() < self.p_future:
                 self.tainted.add(t)
                 for d in range(1, rng.randint(1, 3) + 1):
                     self._send_decoy('future', t, p + d)
@@ -371,12 +379,12 @@ def gen_program(rng, max_threads: int):
     return '\n'.join(lines) + '\n', gates, first_start_line
 
 
-def gen_job(rng, tier_threads: int, plain: bool = False):
+def gen_job(rng, tier_threads: int, plain: bool = False, family: str = 'B'):
     src, gates, first_start = gen_program(rng, tier_threads)
     args = {'seed': rng.randrange(1 << 30), 'gate_lines': {str(k): v for k, v in gates.items()},
             'first_start_line': first_start, 'p_unborn': rng.choice([0.3, 0.6, 1.0]),
             'withhold': rng.choice([0.0, 0.3, 0.6, 0.9]), 'max_decoys': rng.choice([1, 2, 3, 4]),
-            'p_stmt': rng.choice([0.0, 0.15, 0.3]), 'future': True, 'no_decoys': plain}
+            'p_stmt': rng.choice([0.0, 0.15, 0.3]), 'future': True, 'no_decoys': plain, 'issued_only': family == 'A'}
     return {'src': src, 'form': 'str', 'trace_threads': True, 'trace_modules': False, 'timeout': 8,
             'policy': {'kind': 'custom', 'module': 'harness.props.c07', 'func': 'make_policy', 'args': args}}
 
@@ -399,7 +407,7 @@ def gen_long_job(rng, kind: str):
     lines.append("print('@@', sorted(MARK), sorted(LOG))")
     args = {'seed': rng.randrange(1 << 30), 'gate_lines': {}, 'first_start_line': first_start, 'p_unborn': 0.3,
             'withhold': rng.choice([0.0, 0.3]), 'max_decoys': rng.choice([1, 2]), 'p_stmt': 0.03, 'p_continue': 0.0,
-            'future': False, 'no_decoys': False, 'cmds': ['next']}
+            'future': False, 'no_decoys': False, 'cmds': ['next'], 'issued_only': True}
     return {'src': '\n'.join(lines) + '\n', 'form': 'str', 'trace_threads': True, 'trace_modules': False, 'timeout': 40, 'long': kind,
             'policy': {'kind': 'custom', 'module': 'harness.props.c07', 'func': 'make_policy', 'args': args}}
 
@@ -517,6 +525,19 @@ def cases_file(texts) -> str:
 
 # ---------------------------------------------------------------- oracle (independent of the model)
 
+def judged(job, res):
+    """Family A (decoys with issued prompt numbers only -- what the main-process filter can let through) is judged by the
+    property oracle.  Family B (all decoy kinds, sent straight into the child's queue_in) is judged by the CHILD's
+    contract, i.e. the child-level theorems (stale / duplicate / other trace's / non-existent / unborn trace / early-ahead
+    decoys are never executed: signatures 'child:...'); the execution of a command for a FUTURE prompt queued behind the
+    genuine answer is the child's modelled behaviour (C07_decoys_discarded_refuted, child level only) and is compared
+    model-vs-real in the correspondence, not judged."""
+    hits = oracle(job, res)
+    if job['policy']['args'].get('issued_only'):
+        return hits
+    return [('child:' + sig, what) for sig, what in hits if sig != 'future-command-executed']
+
+
 def oracle(job, res):
     """The property text on the real run.  Returns a list of (signature, what)."""
     bad = []
@@ -619,7 +640,7 @@ def _run(ctx, jobs) -> Corr:
             n_foreign += 1
             continue
         payload = {'src': job['src'], 'policy_args': job['policy']['args']}
-        for sig, what in oracle(job, res):
+        for sig, what in judged(job, res):
             corr.violations.append(Violation(sig, what, {**payload, 'sent': res.get('sent'),
                                                          'end_prompts': [[e['trace_no'], e['prompt_no'], e['command']] for e in res.get('events', []) if e['type'] == 'OnEndPrompt'],
                                                          'stdout': res.get('stdout')}))
@@ -692,14 +713,23 @@ def correspond(ctx) -> Corr:
     nlong = (1, 1) if ctx.tier == 'quick' else (12, 4)
     # the long runs first: they take the longest, start them first
     jobs = [gen_long_job(rng, 'prompts') for _ in range(nlong[0])] + [gen_long_job(rng, 'traces') for _ in range(nlong[1])]
-    jobs += load_corpus() + [gen_job(rng, thr, plain=(i % 10 == 9)) for i in range(n)]
-    return _run(ctx, jobs)
+    jobs += load_corpus() + [gen_job(rng, thr, plain=(i % 10 == 9), family='AB'[i % 2]) for i in range(n)]
+    corr = _run(ctx, jobs)
+    # system level: the real Nextline through its public API against the composed model
+    from . import c07_system
+    t0 = time.time()
+    corr.extra.update(c07_system.run(ctx, corr, 8 if ctx.tier == 'quick' else 80))
+    ctx.log(f'system-level runs in {time.time() - t0:.1f}s')
+    corr.evaluations += corr.extra['system_runs_compared_with_the_model']
+    return corr
 
 
 def search(ctx, broken) -> list:
     rng = ctx.rng
-    jobs = [gen_job(rng, 4) for _ in range(600)]
+    jobs = [gen_job(rng, 4, family='AB'[i % 2]) for i in range(600)]
     corr = _run(ctx, jobs)
+    from . import c07_system
+    c07_system.run(ctx, corr, 30)
     return corr.violations
 
 
@@ -721,10 +751,21 @@ def _job_of(j):
 def replay(ctx, path: Path) -> int:
     from .. import child
     j = json.loads(path.read_text())
-    jobs = [_job_of(j) for _ in range(10)]       # thread timing varies: repeat
     hits = {}
+    if j.get('level') == 'system':
+        from . import c07_system
+        for _ in range(3):
+            res = c07_system.run_one(j['job'])
+            for sig, what in c07_system.oracle(j['job'], res):
+                hits.setdefault(sig, what)
+        print(j['job']['src'])
+        for sig, what in hits.items():
+            print('FAILS:', sig, what)
+        print('replay verdict:', 'property violated' if hits else 'property holds on this input (3 runs)')
+        return 1 if hits else 0
+    jobs = [_job_of(j) for _ in range(10)]       # thread timing varies: repeat
     for job, res in zip(jobs, child.run_jobs(jobs)):
-        for sig, what in oracle(job, res):
+        for sig, what in judged(job, res):
             hits.setdefault(sig, what)
     print(j['src'])
     for sig, what in hits.items():
